@@ -8,7 +8,7 @@ RULE = ("util::WriteCompressed (gzip, bzip2, none) in-process for seeded write-s
         "empty writes, incompressible/compressible/larger-than-every-buffer data: the file must expand with Python's zlib/bz2 AND the "
         "gzip/bzip2 command line tools to exactly the written bytes; util::ReadCompressed on gzip/bzip2/xz/plain, single and "
         "concatenated members, delivered in scripted fragments (read(2) interposed), with varying Read() sizes: the bytes must equal an "
-        "independent decoder's; EVERY truncation point of small streams (and sampled ones of large) must end in an error within the "
+        "independent decoder's; EVERY truncation point of small streams (and sampled ones of large; two-member streams of all 9 format pairs around the member boundary) must end in an error within the "
         "timeout, never a shorter success or a hang; GZCompress round-trips for sizes 0..70000; every PV_TRACE event log of the stream "
         "classes (each codec call with its input/output space before and after) must be accepted by the Lean controller model; "
         "non-trivial = distinct op")
@@ -167,9 +167,30 @@ def run(ctx):
         for k in sorted(set(rng.randrange(1, len(big)) for _ in range(25 if ctx.tier == "quick" else 300))):
             tops.append(f"z.read 7,100,4096 4096,1 {hx(big[:k])}")
             full.append((fmt, k, len(big)))
+    # two-member streams (all 9 ordered format pairs): every truncation point, in particular the first bytes of the
+    # second member, where the reader has a few leftover bytes and no more input; cutting exactly at the member
+    # boundary leaves a complete stream (whole = the first member's data)
+    whole = {}
+    for f1 in ("gz", "bz2", "xz"):
+        for f2 in ("gz", "bz2", "xz"):
+            d1, d2 = b"first member %s\n" % f1.encode() * 2, b"second member %s\n" % f2.encode() * 2
+            m1, m2 = enc[f1](d1), enc[f2](d2)
+            two = m1 + m2
+            ks = range(1, len(two)) if ctx.tier != "quick" else sorted(set(list(range(max(1, len(m1) - 8), min(len(two), len(m1) + 14))) + [rng.randrange(1, len(two)) for _ in range(12)]))
+            for k in ks:
+                tops.append(f"z.read {rng.choice(['-', '3,1,1,1,1,1,1,64'])} 4096 {hx(two[:k])}")
+                full.append((f1 + "+" + f2, k, len(two)))
+                if k == len(m1):
+                    whole[len(tops) - 1] = d1
     ta = pvlib.run_lines(impl, tops, env=pvlib.san_env(), timeout=900, per_line_timeout=20)
     ctx.count("z.read.truncated", len(tops), tops)
-    for o, x, (fmt, k, n) in zip(tops, ta, full):
+    for idx, (o, x, (fmt, k, n)) in enumerate(zip(tops, ta, full)):
+        if idx in whole:
+            if not (x.startswith("ok ") and unhx(x.split()[1]) == whole[idx]):
+                pvlib.report_violation(ctx, f"zwhole:{fmt}:{k}", {"ops": [o[:4000]], "impl": x[:200], "format": fmt},
+                                       summary=f"{fmt}: a stream consisting of exactly the first member is not read back as that member's data: {x[:60]}")
+                break
+            continue
         if x == "HANG" or "ERR:" not in x:
             # a prefix shorter than the magic is plain data: fine
             blob = unhx(o.split()[3])
